@@ -7,14 +7,19 @@ package server
 // the ack path all run for real, with follower progress in the order the case prescribes.
 
 import (
+	"bytes"
 	"context"
+	"encoding/binary"
 	"fmt"
+	"os"
+	"path/filepath"
 	"sync"
 	"time"
 
 	client "github.com/liftbridge-io/liftbridge-api/v2/go"
 	"github.com/nats-io/nats.go"
 
+	"github.com/liftbridge-io/liftbridge/server/commitlog"
 	proto "github.com/liftbridge-io/liftbridge/server/protocol"
 )
 
@@ -157,4 +162,162 @@ func (v *vPart) expand(replica string) error {
 		return st.Err()
 	}
 	return nil
+}
+
+// ---- the driver as partition leader: the real server follows a phantom leader ----
+//
+// The phantom leader keeps its log in a real scratch commit log (so that the replication
+// responses are built from real stored bytes) and answers leader-epoch-offset requests with the
+// last offset whose message belongs to an epoch not above the requested one -- what a follower may
+// keep -- computed from its own record of (offset, epoch), not from any epoch cache.
+
+type vSimLeader struct {
+	v      *vPart
+	name   string
+	log    commitlog.CommitLog
+	epochs []uint64 // epoch of the message at each offset
+	hw     int64
+	epoch  uint64 // the leader epoch it leads in (0 = not leading)
+	mu     sync.Mutex
+	subs   []*nats.Subscription
+	asked  []vM // leader-offset requests it answered
+}
+
+func vNewSimLeader(v *vPart, name string) *vSimLeader {
+	dir := filepath.Join(os.Getenv("VERIF_WORK"), fmt.Sprintf("sim_%s_%s_%d", v.stream, name, os.Getpid()))
+	os.RemoveAll(dir)
+	l, err := commitlog.New(commitlog.Options{Path: dir, Name: "sim", MaxSegmentBytes: 1 << 20, CleanerInterval: time.Hour, HWCheckpointInterval: time.Hour})
+	if err != nil {
+		panic(err)
+	}
+	sl := &vSimLeader{v: v, name: name, log: l, hw: -1}
+	s1, _ := v.nc.Subscribe(v.p.getLeaderOffsetRequestInbox(), sl.onOffsetRequest)
+	s2, _ := v.nc.Subscribe(v.p.getReplicationRequestInbox(), sl.onReplicationRequest)
+	sl.subs = []*nats.Subscription{s1, s2}
+	v.nc.Flush()
+	return sl
+}
+
+func (sl *vSimLeader) close() {
+	for _, s := range sl.subs {
+		s.Unsubscribe()
+	}
+	sl.log.Close()
+}
+
+// appendMsg stores a message of the given epoch in the phantom leader's log.
+func (sl *vSimLeader) appendMsg(epoch uint64, value string) int64 {
+	sl.mu.Lock()
+	defer sl.mu.Unlock()
+	offs, err := sl.log.Append([]*commitlog.Message{{MagicByte: 1, Timestamp: time.Now().UnixNano(), LeaderEpoch: epoch, Offset: -1, Value: []byte(value), Headers: map[string][]byte{}}})
+	if err != nil {
+		panic(err)
+	}
+	sl.epochs = append(sl.epochs, epoch)
+	return offs[0]
+}
+
+// lastOffsetUpTo: the last offset whose message belongs to an epoch <= q (-1 if none).
+func (sl *vSimLeader) lastOffsetUpTo(q uint64) int64 {
+	last := int64(-1)
+	for i, e := range sl.epochs {
+		if e <= q {
+			last = int64(i)
+		}
+	}
+	return last
+}
+
+func (sl *vSimLeader) onOffsetRequest(m *nats.Msg) {
+	sl.mu.Lock()
+	defer sl.mu.Unlock()
+	if sl.epoch == 0 || m.Reply == "" {
+		return
+	}
+	req, err := proto.UnmarshalLeaderEpochOffsetRequest(m.Data)
+	if err != nil {
+		return
+	}
+	ans := sl.lastOffsetUpTo(req.LeaderEpoch)
+	sl.asked = append(sl.asked, vM{"epoch": req.LeaderEpoch, "answer": ans})
+	resp, _ := proto.MarshalLeaderEpochOffsetResponse(&proto.LeaderEpochOffsetResponse{EndOffset: ans})
+	m.Respond(resp)
+}
+
+func (sl *vSimLeader) onReplicationRequest(m *nats.Msg) {
+	sl.mu.Lock()
+	defer sl.mu.Unlock()
+	if sl.epoch == 0 || m.Reply == "" {
+		return
+	}
+	req, err := proto.UnmarshalReplicationRequest(m.Data)
+	if err != nil || req.LeaderEpoch != sl.epoch {
+		return
+	}
+	buf := new(bytes.Buffer)
+	proto.WriteReplicationResponseHeader(buf)
+	binary.Write(buf, proto.Encoding, sl.epoch)
+	binary.Write(buf, proto.Encoding, sl.hw)
+	newest := sl.log.NewestOffset()
+	if req.Offset < newest {
+		rd, err := sl.log.NewReader(req.Offset+1, true)
+		if err == nil {
+			hb := make([]byte, 28)
+			for off := req.Offset; off < newest; {
+				ctx, cancel := context.WithCancel(context.Background())
+				cancel()
+				msg, o, _, _, err := rd.ReadMessage(ctx, hb)
+				if err != nil {
+					break
+				}
+				buf.Write(hb)
+				buf.Write(msg)
+				off = o
+			}
+		}
+	}
+	m.Respond(buf.Bytes())
+}
+
+// lead makes the phantom the partition leader (through Raft) in a new epoch and returns it.
+func (sl *vSimLeader) lead() (uint64, error) {
+	op := &proto.RaftLog{Op: proto.Op_CHANGE_LEADER, ChangeLeaderOp: &proto.ChangeLeaderOp{Stream: sl.v.stream, Partition: 0, Leader: sl.name}}
+	ctx, cancel := context.WithTimeout(context.Background(), 10*time.Second)
+	defer cancel()
+	sl.mu.Lock()
+	sl.epoch = 1 << 62 // answer requests as leader from now on; the real epoch is set below
+	sl.mu.Unlock()
+	f, err := sl.v.srv.s.getRaft().applyOperation(ctx, op, nil)
+	if err != nil {
+		return 0, err
+	}
+	if err := f.Error(); err != nil {
+		return 0, err
+	}
+	_, epoch := sl.v.srv.s.metadata.GetPartition(sl.v.stream, 0).GetLeader()
+	sl.mu.Lock()
+	sl.epoch = epoch
+	sl.mu.Unlock()
+	return epoch, nil
+}
+
+// handBack makes the real server the leader again.
+func (sl *vSimLeader) handBack() (uint64, error) {
+	sl.mu.Lock()
+	sl.epoch = 0
+	sl.mu.Unlock()
+	me := sl.v.srv.s.config.Clustering.ServerID
+	op := &proto.RaftLog{Op: proto.Op_CHANGE_LEADER, ChangeLeaderOp: &proto.ChangeLeaderOp{Stream: sl.v.stream, Partition: 0, Leader: me}}
+	ctx, cancel := context.WithTimeout(context.Background(), 10*time.Second)
+	defer cancel()
+	f, err := sl.v.srv.s.getRaft().applyOperation(ctx, op, nil)
+	if err != nil {
+		return 0, err
+	}
+	if err := f.Error(); err != nil {
+		return 0, err
+	}
+	sl.v.p = sl.v.srv.waitLeader(sl.v.stream, 0)
+	_, epoch := sl.v.p.GetLeader()
+	return epoch, nil
 }
